@@ -133,6 +133,9 @@ func decOf(s string) math.LegacyDec {
 func BuildMsg(actors []*Actor, m *MsgSpec) (sdk.Msg, error) {
 	A := AddrOf(actors, m.A).String()
 	B := AddrOf(actors, m.B).String()
+	if m.Up {
+		A = strings.ToUpper(A)
+	}
 	switch m.T {
 	case "ent.raise":
 		return &enttypes.MsgUndPurchaseOrder{Purchaser: A, Amount: coinOf(m.Amt, m.Denom)}, nil
